@@ -395,3 +395,72 @@ func EPCheck(t *rapid.T) oracle.State {
 		return st
 	}
 }
+
+// ManyMoves builds a well-formed odd-material position with as many moves for the side to move
+// as a short hill-climb finds (8-14 queens plus rooks, bishops and knights; the other king is
+// tucked into a corner behind its own men and is not in check): move lists beyond the usual
+// bounds (218 legal moves with normal material, 256-entry buffers).
+func ManyMoves(t *rapid.T) oracle.State {
+	var p oracle.Pos
+	p.EP = -1
+	p.White = true
+	// the opponent: king in the corner a1, shielded
+	p.Sq[oracle.A1] = -oracle.King
+	p.Sq[oracle.Sq(1, 0)] = -oracle.Rook
+	p.Sq[oracle.Sq(0, 1)] = -oracle.Bishop
+	p.Sq[oracle.Sq(1, 1)] = -oracle.Pawn
+	var men []int8
+	for i, n := 0, rapid.IntRange(9, 18).Draw(t, "queens"); i < n; i++ {
+		men = append(men, oracle.Queen)
+	}
+	men = append(men, oracle.King, oracle.Rook, oracle.Rook, oracle.Bishop, oracle.Bishop)
+	for i, n := 0, rapid.IntRange(0, 2).Draw(t, "knights"); i < n; i++ {
+		men = append(men, oracle.Knight)
+	}
+	place := func(pc int8) int {
+		for {
+			s := rapid.IntRange(0, 63).Draw(t, "sq")
+			if p.Sq[s] != 0 {
+				continue
+			}
+			p.Sq[s] = pc
+			if p.InCheck(false) || (pc == oracle.King && p.InCheck(true)) {
+				p.Sq[s] = 0
+				continue
+			}
+			return s
+		}
+	}
+	at := make([]int, len(men))
+	for i, pc := range men {
+		at[i] = place(pc)
+	}
+	score := func() int { return len(p.PseudoLegal()) }
+	best := score()
+	for step, n := 0, rapid.IntRange(300, 900).Draw(t, "steps"); step < n; step++ {
+		i := rapid.IntRange(0, len(men)-1).Draw(t, "man")
+		to := rapid.IntRange(0, 63).Draw(t, "to")
+		if p.Sq[to] != 0 {
+			continue
+		}
+		from := at[i]
+		p.Sq[from], p.Sq[to] = 0, men[i]
+		if sc := score(); sc >= best && !p.InCheck(false) && !p.InCheck(true) {
+			best, at[i] = sc, to
+			continue
+		}
+		p.Sq[to], p.Sq[from] = 0, men[i]
+	}
+	// mirror / flip for variety
+	if rapid.Bool().Draw(t, "flip") {
+		q := p
+		for s := 0; s < 64; s++ {
+			q.Sq[oracle.Sq(7-oracle.File(s), oracle.Rank(s))] = p.Sq[s]
+		}
+		p = q
+	}
+	if rapid.Bool().Draw(t, "black") {
+		p = p.Mirror()
+	}
+	return oracle.State{Pos: p, Half: 0, Full: 60}
+}
